@@ -92,7 +92,7 @@ func verif_UDPProxy_Close(pxy *UDPProxy) {
 	port := pxy.realBindPort
 	verif.Requires(closed0 || (pxy.checkCloseCh != nil && pxy.readCh != nil && pxy.sendCh != nil &&
 		!verif.Closed(pxy.checkCloseCh) && !verif.Closed(pxy.readCh) && !verif.Closed(pxy.sendCh) &&
-		pxy.checkCloseCh != nil), "open_proxy_has_open_channels")
+		pxy.readCh != pxy.sendCh), "open_proxy_has_open_channels")
 	verif.ResetEvents()
 	pxy.Close()
 	verif.Ensures(pxy.isClosed, "closed_after")
